@@ -109,6 +109,20 @@ class SiteCheck(PropertyCheck):
                                 f['target'] = b['full']
                                 return
                             stack.append(b)
+            if f['kind'] == 'dead-anchor' and href is not None and href.startswith('#rst-toc-entry-'):
+                f['class'] = 'toc-backlink'
+                return
+            if f['kind'] == 'dead-anchor' and href is not None and href.startswith('#') and f.get('zone') in ('member_doc', 'docstring'):
+                # inherited docstring: the link was shortened against the page of the docstring's SOURCE (a base class)
+                frag = S.unquote(href[1:])
+                pobjs = [o for o in reg['objs'] if o['own'] and o['url'] == f.get('page') and o['cls'] == 'C']
+                for po in pobjs:
+                    for bi in po.get('mro', [])[1:]:
+                        b = reg['objs'][bi]
+                        if any(reg['objs'][ci]['name'] == frag for ci in b['contents']):
+                            f['class'] = 'inherited-docstring-context'
+                            f['target'] = b['full'] + '.' + frag
+                            return
             f['class'] = 'unclassified'
         else:
             if f['kind'] == 'hidden-row' and f.get('producer') in ('module_index', 'index_roots') and f.get('root'):
@@ -179,14 +193,20 @@ class SiteCheck(PropertyCheck):
         return out
 
     def correspondence(self) -> List[Violation]:
-        out = self.run_batch(self.cases())
+        cases = self.cases()
+        out: List[Violation] = []
+        step = 128            # bounded memory: one batch of crawls at a time
+        for i in range(0, len(cases), step):
+            out.extend(self.run_batch(cases[i:i + step]))
         self.stats['distinct_nontrivial'] = len(self.nontrivial)
         return out
 
     def search(self, broken: List[Violation]) -> List[Violation]:
         rng = random.Random(self.seed + 1)
         cases = S.corpus() + [S.gen_project(rng, 10000 + i) for i in range(150 if self.tier == 'quick' else 600)]
-        found = [v for v in self.run_batch(cases, with_model=False) if v.kind == 'oracle']
+        found: List[Violation] = []
+        for i in range(0, len(cases), 128):
+            found.extend(v for v in self.run_batch(cases[i:i + 128], with_model=False) if v.kind == 'oracle')
         known, _ = lib.load_known_findings(self.id)
         fresh = [v for v in found if self.classify_known(v, known) is None]
         return fresh[:5] or found[:1]
